@@ -17,9 +17,14 @@ package gateway
 
 // Session invariant (DESIGN 6.C): parts needed by the step contracts.
 //@ pred regTypes(h *handler1) = forall k iface :: k in h.registeredTopics ==> istype(k, uint16) && istype(smGet(h.registeredTopics, k), string)
-//@ pred hInv(h *handler1) = h.cfg != nil && h.state != nil && h.snConn != nil && h.mqttConn != nil &&
-//@      h.transactions != nil && storeInv(h.transactions) && h.topicID != nil && seqInv(h.topicID) && regTypes(h) &&
-//@      state(h) <= 3
+// The connect exchange in progress (if any) is a well-formed connectTransaction of this handler.
+//@ pred connTx(h *handler1) = (4 in h.transactions.bypktType) ==> istype(h.transactions.bypktType[4], *connectTransaction) &&
+//@      h.transactions.bypktType[4].(*connectTransaction).handler == h && ctInv(h.transactions.bypktType[4].(*connectTransaction))
+// Everything queued for a sleeping client is a well-formed gateway-to-client packet.
+//@ pred bufWF(h *handler1) = forall i int :: 0 <= i && i < len(h.pktBuffer) ==> wfFromGateway(h.pktBuffer[i])
+//@ pred hInv(h *handler1) = h != nil && bufWF(h) && h.cfg != nil && h.state != nil && h.snConn != nil && h.mqttConn != nil &&
+//@      h.transactions != nil && storeInv(h.transactions) && topicSeq(h) && regTypes(h) && boundOnce(h) &&
+//@      state(h) <= 3 && connTx(h)
 
 // ---- sending ----
 //@ func (*handler1).mqttSend
@@ -77,6 +82,9 @@ package gateway
 //@   nopanic [C25]
 //@   requires [C25] conn: h.state != nil && h.snConn != nil && state(h) <= 3
 //@   requires [C23] wf: wfFromGateway(pkt)
+//@   requires [C23] queue_wf: bufWF(h)
+//@   deadreturn 1 Pack never returns an error
+//@   ensures [C23] keeps_queue_wf: bufWF(h)
 //@   assigns h.snOutN, h.snOut, h.pktBuffer,
 //@      pkt.(*snPkts1.GwInfo).Header.pktLength, pkt.(*snPkts1.Connect).Header.pktLength, pkt.(*snPkts1.WillMsg).Header.pktLength,
 //@      pkt.(*snPkts1.Register).Header.pktLength, pkt.(*snPkts1.Publish).Header.pktLength, pkt.(*snPkts1.Pingreq).Header.pktLength,
@@ -168,3 +176,169 @@ package gateway
 //@   ensures [C07] connected_any: state(h) != 0 ==> result == nil
 //@   ensures [C07] gate: state(h) == 0 ==> ((result == nil) == legalWhenDisconnected(h, pkt))
 //@   ensures [C07] illegal_error: result != nil ==> result == ErrIllegalPacketWhenDisconnected
+
+//@ inline (*handler1).setState
+
+// ---- C08 / C09: connect exchange ----
+// t.state: 0 awaiting AUTH, 1 awaiting WILLTOPIC, 2 awaiting WILLMSG, 3 awaiting CONNACK (MQTT CONNECT sent).
+//@ spec credsFromCfg(t *connectTransaction) bool =
+//@      t.mqConnect.UsernameFlag == (t.handler.cfg.MqttUser != nil) &&
+//@      (t.mqConnect.UsernameFlag ==> t.mqConnect.Username == deref(t.handler.cfg.MqttUser)) &&
+//@      t.mqConnect.PasswordFlag == (t.handler.cfg.MqttPassword != nil) &&
+//@      sameSlice(t.mqConnect.Password, t.handler.cfg.MqttPassword)
+//@ pred hLite(h *handler1) = h != nil && h.cfg != nil && h.state != nil && h.snConn != nil && h.mqttConn != nil && state(h) <= 3
+//@ pred ctWF(t *connectTransaction) = t.handler != nil && hLite(t.handler) && t.mqConnect != nil && timedWF(t.TimedTransaction) &&
+//@      (!t.authEnabled ==> credsFromCfg(t))
+// Between steps: with authentication enabled the exchange has passed the AUTH phase only after a successful AUTH;
+// with authentication disabled it is never waiting for AUTH.
+//@ pred ctInv(t *connectTransaction) = ctWF(t) && t.state >= 0 && t.state <= 3 &&
+//@      (t.authEnabled && t.state != 0 ==> t.authenticated) && (!t.authEnabled ==> t.state != 0)
+
+//@ func newConnectTransaction
+//@   nopanic [C25]
+//@   requires [C25] h: hLite(h) && mqConnect != nil
+//@   ensures [C09] made: fresh(result) && result.handler == h && result.mqConnect == mqConnect && result.authEnabled == authEnabled &&
+//@      !result.authenticated && result.state == 0 && timedWF(result.TimedTransaction) && fresh(result.TimedTransaction) &&
+//@      !finished(result.TimedTransaction.TransactionBase)
+
+//@ func (*connectTransaction).gatherWill
+//@   nopanic [C25]
+//@   requires [C23] queue_wf: bufWF(t.handler)
+//@   ensures [C23] keeps_queue_wf: bufWF(t.handler)
+//@   requires [C09] wf: ctWF(t) && (t.authEnabled ==> t.authenticated)
+//@   let h = t.handler
+//@   assigns t.state, h.mqttOutN, h.mqttOut, h.snOutN, h.snOut, h.pktBuffer
+//@   at mqttSend.0 before assert [C08] auth_first: t.authEnabled ==> t.authenticated
+//@   at mqttSend.0 before assert [C08] configured_credentials: !t.authEnabled ==> credsFromCfg(t)
+//@   ensures [C09] will_asks_topic: t.mqConnect.WillFlag ==> t.state == 1 && h.mqttOutN == old(h.mqttOutN) &&
+//@      (old(state(h)) != 2 && result == nil ==> h.snOutN == old(h.snOutN) + 1 && istype(h.snOut[old(h.snOutN)], *snPkts1.WillTopicReq))
+//@   ensures [C09] no_will_connects: !t.mqConnect.WillFlag ==> t.state == 3 && h.snOutN == old(h.snOutN) &&
+//@      (h.mqttOutN == old(h.mqttOutN) || h.mqttOutN == old(h.mqttOutN) + 1) &&
+//@      (result == nil ==> h.mqttOutN == old(h.mqttOutN) + 1) &&
+//@      (h.mqttOutN == old(h.mqttOutN) + 1 ==> h.mqttOut[old(h.mqttOutN)] == box(*mqPkts.ConnectPacket, t.mqConnect))
+//@   ensures [C09] at_most_one_each: (h.mqttOutN == old(h.mqttOutN) || h.mqttOutN == old(h.mqttOutN) + 1) && (h.snOutN == old(h.snOutN) || h.snOutN == old(h.snOutN) + 1)
+//@   ensures [C09] keeps_wf: ctWF(t)
+
+//@ func (*connectTransaction).Start
+//@   nopanic [C25]
+//@   requires [C23] queue_wf: bufWF(t.handler)
+//@   ensures [C23] keeps_queue_wf: bufWF(t.handler)
+//@   requires [C09] fresh_exchange: ctWF(t) && t.state == 0 && !t.authenticated && t.handler.group != nil
+//@   let h = t.handler
+//@   assigns t.state, h.mqttOutN, h.mqttOut, h.snOutN, h.snOut, h.pktBuffer
+//@   ensures [C09] keeps: ctInv(t)
+//@   ensures [C08] waits_for_auth: t.authEnabled ==> t.state == 0 && h.mqttOutN == old(h.mqttOutN) && h.snOutN == old(h.snOutN) && result == nil
+//@   ensures [C09] will_asks_topic: !t.authEnabled && t.mqConnect.WillFlag ==> t.state == 1 && h.mqttOutN == old(h.mqttOutN)
+//@   ensures [C09] no_will_connects: !t.authEnabled && !t.mqConnect.WillFlag ==> t.state == 3 && h.snOutN == old(h.snOutN) &&
+//@      (h.mqttOutN == old(h.mqttOutN) || h.mqttOutN == old(h.mqttOutN) + 1) && (h.mqttOutN == old(h.mqttOutN) + 1 ==> h.mqttOut[old(h.mqttOutN)] == box(*mqPkts.ConnectPacket, t.mqConnect))
+
+//@ func (*connectTransaction).SendConnack
+//@   nopanic [C25]
+//@   requires [C23] queue_wf: bufWF(t.handler)
+//@   ensures [C23] keeps_queue_wf: bufWF(t.handler)
+//@   requires [C09] wf: ctWF(t)
+//@   let h = t.handler
+//@   assigns h.snOutN, h.snOut, h.pktBuffer, armed(t.TimedTransaction.timer), t.TimedTransaction.TransactionBase.err,
+//@      closed(t.TimedTransaction.TransactionBase.done), calls(t.TimedTransaction.TransactionBase.finally)
+//@   ensures [C09] one_connack: (h.snOutN == old(h.snOutN) || h.snOutN == old(h.snOutN) + 1) &&
+//@      (old(state(h)) != 2 && result == nil ==> h.snOutN == old(h.snOutN) + 1) &&
+//@      (h.snOutN == old(h.snOutN) + 1 ==> istype(h.snOut[old(h.snOutN)], *snPkts1.Connack) && h.snOut[old(h.snOutN)].(*snPkts1.Connack).ReturnCode == code)
+//@   ensures [C09] failure_fails: result != nil ==> finished(t.TimedTransaction.TransactionBase)
+//@   ensures [C09] keeps_wf: ctWF(t)
+//@   ensures [C25] state_same: state(h) == old(state(h))
+
+//@ func (*connectTransaction).Auth
+//@   nopanic [C25]
+//@   requires [C23] queue_wf: bufWF(t.handler)
+//@   ensures [C23] keeps_queue_wf: bufWF(t.handler)
+//@   requires [C08] inv: ctInv(t) && snPkt != nil
+//@   let h = t.handler
+//@   assigns t.state, t.authenticated, t.mqConnect.UsernameFlag, t.mqConnect.Username, t.mqConnect.PasswordFlag, t.mqConnect.Password,
+//@      h.mqttOutN, h.mqttOut, h.snOutN, h.snOut, h.pktBuffer, armed(t.TimedTransaction.timer), t.TimedTransaction.TransactionBase.err,
+//@      closed(t.TimedTransaction.TransactionBase.done), calls(t.TimedTransaction.TransactionBase.finally)
+//@   at DecodePlain.0 after let user = retn(0)
+//@   at DecodePlain.0 after let pass = retn(1)
+//@   ensures [C08] keeps: result == nil ==> ctInv(t)
+//@   ensures [C08] ignored_unless_awaited: old(t.state) != 0 ==> result == nil && h.mqttOutN == old(h.mqttOutN) && h.snOutN == old(h.snOutN) &&
+//@      t.state == old(t.state) && t.mqConnect.Username == old(t.mqConnect.Username) && sameSlice(t.mqConnect.Password, old(t.mqConnect.Password)) &&
+//@      t.mqConnect.UsernameFlag == old(t.mqConnect.UsernameFlag) && t.mqConnect.PasswordFlag == old(t.mqConnect.PasswordFlag)
+//@   ensures [C08] unknown_method: old(t.state) == 0 && snPkt.Method != "PLAIN" ==> result != nil && h.mqttOutN == old(h.mqttOutN) &&
+//@      (old(state(h)) != 2 && h.snOutN == old(h.snOutN) + 1 ==> istype(h.snOut[old(h.snOutN)], *snPkts1.Connack) &&
+//@         h.snOut[old(h.snOutN)].(*snPkts1.Connack).ReturnCode == 3)
+//@   ensures [C08] carries_decoded_credentials: t.authenticated && !old(t.authenticated) ==> t.mqConnect.UsernameFlag && t.mqConnect.PasswordFlag &&
+//@      t.mqConnect.Username == user && sameSlice(t.mqConnect.Password, pass)
+//@   ensures [C08] connect_only_when_authenticated: h.mqttOutN != old(h.mqttOutN) ==> t.authenticated && old(t.state) == 0 &&
+//@      h.mqttOutN == old(h.mqttOutN) + 1 && h.mqttOut[old(h.mqttOutN)] == box(*mqPkts.ConnectPacket, t.mqConnect)
+
+//@ func (*connectTransaction).WillTopic
+//@   nopanic [C25]
+//@   requires [C23] queue_wf: bufWF(t.handler)
+//@   ensures [C23] keeps_queue_wf: bufWF(t.handler)
+//@   requires [C09] inv: ctInv(t) && snWillTopic != nil
+//@   let h = t.handler
+//@   assigns t.state, t.mqConnect.WillFlag, t.mqConnect.WillQos, t.mqConnect.WillRetain, t.mqConnect.WillTopic,
+//@      h.mqttOutN, h.mqttOut, h.snOutN, h.snOut, h.pktBuffer
+//@   ensures [C09] keeps: ctInv(t)
+//@   ensures [C09] ignored_unless_awaited: old(t.state) != 1 ==> result == nil && h.mqttOutN == old(h.mqttOutN) && h.snOutN == old(h.snOutN) &&
+//@      t.state == old(t.state) && t.mqConnect.WillTopic == old(t.mqConnect.WillTopic) && t.mqConnect.WillFlag == old(t.mqConnect.WillFlag)
+//@   ensures [C09] takes_will_topic: old(t.state) == 1 && len(snWillTopic.WillTopic) != 0 ==> t.state == 2 && h.mqttOutN == old(h.mqttOutN) &&
+//@      t.mqConnect.WillTopic == snWillTopic.WillTopic && t.mqConnect.WillQos == snWillTopic.QOS && t.mqConnect.WillRetain == snWillTopic.Retain &&
+//@      (old(state(h)) != 2 && result == nil ==> h.snOutN == old(h.snOutN) + 1 && istype(h.snOut[old(h.snOutN)], *snPkts1.WillMsgReq))
+//@   ensures [C09,C24] empty_topic_means_no_will: old(t.state) == 1 && len(snWillTopic.WillTopic) == 0 ==> t.state == 3 && !t.mqConnect.WillFlag &&
+//@      h.snOutN == old(h.snOutN) && (h.mqttOutN == old(h.mqttOutN) || h.mqttOutN == old(h.mqttOutN) + 1)
+//@   ensures [C09] at_most_one_each: (h.mqttOutN == old(h.mqttOutN) || h.mqttOutN == old(h.mqttOutN) + 1) && (h.snOutN == old(h.snOutN) || h.snOutN == old(h.snOutN) + 1)
+
+//@ func (*connectTransaction).WillMsg
+//@   nopanic [C25]
+//@   requires [C09] inv: ctInv(t) && snWillMsg != nil
+//@   let h = t.handler
+//@   assigns t.state, t.mqConnect.WillMessage, h.mqttOutN, h.mqttOut
+//@   at mqttSend.0 before assert [C08] auth_first: t.authEnabled ==> t.authenticated
+//@   at mqttSend.0 before assert [C08] configured_credentials: !t.authEnabled ==> credsFromCfg(t)
+//@   ensures [C09] keeps: ctInv(t)
+//@   ensures [C09] ignored_unless_awaited: old(t.state) != 2 ==> result == nil && h.mqttOutN == old(h.mqttOutN) && t.state == old(t.state) &&
+//@      sameSlice(t.mqConnect.WillMessage, old(t.mqConnect.WillMessage))
+//@   ensures [C09] connects_with_will: old(t.state) == 2 ==> t.state == 3 && sameSlice(t.mqConnect.WillMessage, snWillMsg.WillMsg) &&
+//@      (h.mqttOutN == old(h.mqttOutN) || h.mqttOutN == old(h.mqttOutN) + 1) && (result == nil ==> h.mqttOutN == old(h.mqttOutN) + 1) &&
+//@      (h.mqttOutN == old(h.mqttOutN) + 1 ==> h.mqttOut[old(h.mqttOutN)] == box(*mqPkts.ConnectPacket, t.mqConnect))
+
+//@ func (*connectTransaction).Connack
+//@   nopanic [C25]
+//@   requires [C23] queue_wf: bufWF(t.handler)
+//@   ensures [C23] keeps_queue_wf: bufWF(t.handler)
+//@   requires [C09] inv: ctInv(t) && mqConnack != nil
+//@   let h = t.handler
+//@   assigns deref(h.state), h.snOutN, h.snOut, h.pktBuffer, armed(t.TimedTransaction.timer), t.TimedTransaction.TransactionBase.err,
+//@      closed(t.TimedTransaction.TransactionBase.done), calls(t.TimedTransaction.TransactionBase.finally)
+//@   ensures [C07] ignored_unless_connect_sent: old(t.state) != 3 ==> result == nil && state(h) == old(state(h)) && h.snOutN == old(h.snOutN)
+//@   ensures [C07,C09] active_iff_broker_accepted: state(h) != old(state(h)) ==> state(h) == 1 && mqConnack.ReturnCode == 0 && old(t.state) == 3
+//@   ensures [C09] refused_is_congestion: old(t.state) == 3 && mqConnack.ReturnCode != 0 ==> result != nil && state(h) == old(state(h)) &&
+//@      (h.snOutN == old(h.snOutN) + 1 ==> istype(h.snOut[old(h.snOutN)], *snPkts1.Connack) && h.snOut[old(h.snOutN)].(*snPkts1.Connack).ReturnCode == 1)
+//@   ensures [C09] accepted_is_accepted: old(t.state) == 3 && mqConnack.ReturnCode == 0 ==> state(h) == 1 &&
+//@      (h.snOutN == old(h.snOutN) + 1 ==> istype(h.snOut[old(h.snOutN)], *snPkts1.Connack) && h.snOut[old(h.snOutN)].(*snPkts1.Connack).ReturnCode == 0)
+//@   ensures [C09] at_most_one: (h.snOutN == old(h.snOutN) || h.snOutN == old(h.snOutN) + 1)
+
+//@ func (*handler1).handleConnect
+//@   nopanic [C25]
+//@   requires [C25] inv: hInv(h) && h.group != nil && snConnect != nil
+//@   assigns *
+//@   at snSend.1 after let afterConnack = h.snOutN
+//@   loop 0 invariant [C11] awake: state(h) == 1 && h.snConn != nil && h.state != nil && rangeindex >= -1 && rangeindex < len(old(h.pktBuffer))
+//@   loop 0 invariant [C11] sent_so_far: h.snOutN == afterConnack + rangeindex + 1 && h.mqttOutN == old(h.mqttOutN)
+//@   loop 0 invariant [C11] buffer_same: sameSlice(h.pktBuffer, old(h.pktBuffer))
+//@   loop 0 invariant [C11] buffer_wf: bufWF(h)
+//@   ensures [C25] keeps_basic: h.cfg != nil && h.state != nil && h.snConn != nil && h.mqttConn != nil && h.transactions != nil && state(h) <= 3
+//@   ensures [C25] keeps_store: storeInv(h.transactions)
+//@   ensures [C25] keeps_seq: topicSeq(h)
+//@   ensures [C25] keeps_reg: regTypes(h) && boundOnce(h)
+//@   ensures [C25] keeps_buf: bufWF(h)
+//@   ensures [C25] keeps_conn: connTx(h)
+//@   ensures [C07] no_activation_without_broker: old(state(h)) == 0 ==> state(h) == 0
+//@   ensures [C07,C11] sleeping_client_becomes_active: (old(state(h)) == 2 || old(state(h)) == 3) && snConnect.ProtocolID == 1 ==>
+//@      h.mqttOutN == old(h.mqttOutN) && (result == nil ==> state(h) == 1 && len(h.pktBuffer) == 0)
+//@   ensures [C09] zero_keepalive_refused: snConnect.ProtocolID == 1 && (old(state(h)) == 0 || old(state(h)) == 1) && snConnect.Duration == 0 ==>
+//@      h.mqttOutN == old(h.mqttOutN) && (h.snOutN == old(h.snOutN) + 1 ==> istype(h.snOut[old(h.snOutN)], *snPkts1.Connack) &&
+//@         h.snOut[old(h.snOutN)].(*snPkts1.Connack).ReturnCode == 3)
+//@   ensures [C09] wrong_protocol_refused: snConnect.ProtocolID != 1 ==> h.mqttOutN == old(h.mqttOutN) && state(h) == old(state(h))
+//@   ensures [C09] at_most_one_connect: h.mqttOutN == old(h.mqttOutN) || h.mqttOutN == old(h.mqttOutN) + 1
+//@   ensures [C08] auth_enabled_sends_nothing_yet: h.cfg.AuthEnabled ==> h.mqttOutN == old(h.mqttOutN)
